@@ -60,6 +60,9 @@ fn step<'i>(cur: View<'i>, stack: &mut Vec<View<'i>>, op: &str) -> (String, View
         ("J", View::P(v)) => (hexs(&v.to_json()), View::P(v)),
         ("n", View::F(mut v)) => { let r = v.next(); (r.as_ref().map(summary).unwrap_or("_".into()), View::F(v)) }
         ("b", View::F(mut v)) => { let r = v.next_back(); (r.as_ref().map(summary).unwrap_or("_".into()), View::F(v)) }
+        // a clone of the (possibly partly walked) flat view: its len, size hint and what it yields
+        ("k", View::F(v)) => { let c = v.clone(); let n = c.len(); let h = c.size_hint(); let items: Vec<String> = c.map(|p| summary(&p)).collect();
+            (format!("{}{}:[{}]", n, if h == (n, Some(n)) { String::new() } else { format!("!hint{:?}", h) }, items.join(",")), View::F(v)) }
         ("l", View::F(v)) => { let n = v.len(); let h = v.size_hint(); (if h == (n, Some(n)) { n.to_string() } else { format!("{}!hint{:?}", n, h) }, View::F(v)) }
         ("n", View::T(mut v)) => { let r = v.next(); (r.as_ref().map(show_tok).unwrap_or("_".into()), View::T(v)) }
         ("b", View::T(mut v)) => { let r = v.next_back(); (r.as_ref().map(show_tok).unwrap_or("_".into()), View::T(v)) }
@@ -111,6 +114,7 @@ fn spec_step(cur: Spec, stack: &mut Vec<Spec>, op: &str, input: &str) -> (Option
         ("J", Spec::P(v)) => (None, Spec::P(v)), // checked structurally below
         ("n", Spec::F(mut v)) => if v.is_empty() { (Some("_".into()), Spec::F(v)) } else { let t = v.remove(0); (Some(t_summary(&t)), Spec::F(v)) },
         ("b", Spec::F(mut v)) => match v.pop() { Some(t) => (Some(t_summary(&t)), Spec::F(v)), None => (Some("_".into()), Spec::F(v)) },
+        ("k", Spec::F(v)) => (Some(format!("{}:[{}]", v.len(), v.iter().map(t_summary).collect::<Vec<_>>().join(","))), Spec::F(v)),
         ("l", Spec::F(v)) => (Some(v.len().to_string()), Spec::F(v)),
         ("n", Spec::T(mut v)) => if v.is_empty() { (None, Spec::T(v)) } else { let t = v.remove(0); (Some(tk(&t)), Spec::T(v)) },
         ("b", Spec::T(mut v)) => match v.pop() { Some(t) => (Some(tk(&t)), Spec::T(v)), None => (None, Spec::T(v)) },
@@ -221,7 +225,7 @@ fn main() {
                 if forest.iter().any(|t| t.kids.iter().any(|k| !k.kids.is_empty())) { nested += 1; }
                 let nops = rng.range(1, maxops);
                 let mut ops = vec![];
-                let pool: &[&str] = if json { &["n", "b", "n", "b", "l", "l", "p", "s", "c", "e", "i", "I", "u", "g", "x", "T", "f", "t", "D", "A", "G", "J", "F0", "F0", "F1", "F2", "W0", "W1", "W2"] } else { &["n", "b", "n", "b", "l", "l", "p", "s", "c", "e", "i", "I", "u", "g", "x", "T", "f", "t", "D", "A", "G", "F0", "F0", "F1", "F2", "W0", "W1", "W2"] };
+                let pool: &[&str] = if json { &["n", "b", "n", "b", "l", "l", "p", "s", "c", "e", "i", "I", "u", "g", "x", "T", "f", "t", "D", "A", "G", "J", "F0", "F0", "F1", "F2", "W0", "W1", "W2", "k", "k"] } else { &["n", "b", "n", "b", "l", "l", "p", "s", "c", "e", "i", "I", "u", "g", "x", "T", "f", "t", "D", "A", "G", "F0", "F0", "F1", "F2", "W0", "W1", "W2", "k", "k"] };
                 for _ in 0..nops { ops.push(rng.pick(pool).to_string()); }
                 let l = format!("W {} ({}) {}", hexs(&input), forest.iter().map(show_tree).collect::<Vec<_>>().join(" "), ops.join(" "));
                 let (i, v) = eval_line(&l, &mut stats);
